@@ -243,6 +243,34 @@ example : (Block.process_withdrawals_pure { (default : Config) with MAX_VALIDATO
     { (default : State) with validators := List.replicate 12 default, balances := List.replicate 12 0, next_withdrawal_validator_index := 5 } [] []).map
       (·.next_withdrawal_validator_index) = some 9 := by decide
 
+/-- (f) `altair.ProcessSyncAggregate` (as repaired by the `fix:` commit found while stating this theorem: the proposer is
+paid per participant, in committee order) = the specification's `process_sync_aggregate` (pure core
+`Block.process_sync_aggregate_pure`, compared with the monadic `S` on every evaluation): bitvector sanity, previous-slot
+block root, the reward arithmetic (wrapping products are exact under the stated bounds), rewards and clipped penalties
+in committee order. `B` bounds the balances so that no balance can reach `2^64` during the loop. -/
+theorem syncAggregate_eq (cfg : Config) (ctx : Ctx) (s : State) (agg : SyncAggregate) (T p B : Nat) (committee : SyncCommittee)
+    (hsc : s.current_sync_committee = some committee)
+    (hp : ctx.proposer = some p) (hidx : ctx.syncIndices = committee.pubkeys.mapM (Block.pubkey_index s))
+    (hT : ctx.totalActiveStake = T) (hsq : ctx.totalActiveStakeSqRoot = integer_squareroot T)
+    (hclen : committee.pubkeys.length = cfg.SYNC_COMMITTEE_SIZE)
+    (hbits : agg.sync_committee_bits.length = 8 * ((cfg.SYNC_COMMITTEE_SIZE + 7) / 8))
+    (hpad : (agg.sync_committee_bits.drop cfg.SYNC_COMMITTEE_SIZE).all (· = false) = true)
+    (hslot : s.slot + cfg.SLOTS_PER_HISTORICAL_ROOT < 2 ^ 64)
+    (h1 : cfg.EFFECTIVE_BALANCE_INCREMENT * cfg.BASE_REWARD_FACTOR < 2 ^ 64)
+    (h2 : cfg.EFFECTIVE_BALANCE_INCREMENT * cfg.BASE_REWARD_FACTOR / integer_squareroot T * (T / cfg.EFFECTIVE_BALANCE_INCREMENT) * SYNC_REWARD_WEIGHT < 2 ^ 64)
+    (h3 : (Block.sync_rewards cfg T).1 * PROPOSER_WEIGHT < 2 ^ 64)
+    (hB : ∀ x ∈ s.balances, x ≤ B)
+    (hsum : B + cfg.SYNC_COMMITTEE_SIZE * ((Block.sync_rewards cfg T).1 + (Block.sync_rewards cfg T).2) < 2 ^ 64)
+    (hnz : cfg.EFFECTIVE_BALANCE_INCREMENT ≠ 0 ∧ cfg.SLOTS_PER_EPOCH ≠ 0 ∧ cfg.SYNC_COMMITTEE_SIZE ≠ 0 ∧ integer_squareroot T ≠ 0) :
+    Zrnt.Beacon.BlockM.processSyncAggregate cfg ctx s agg = BlockM.optRes (Block.process_sync_aggregate_pure cfg s agg T p) :=
+  BlockM.syncAggregate_eq cfg ctx s agg T p B committee hsc hp hidx hT hsq hclen hbits hpad hslot h1 h2 h3 hB hsum hnz
+
+/-- Why the repair was needed: with the proposer paid once after the loop, a proposer that is itself a non-participating
+member with a balance below the participant reward ends with another balance than the specification's
+(committee [1, 0], bits [1, 0], proposer 0, balances [0, 5]: the spec pays 0 first — 0+3 — and then clips 3−10 to 0;
+paying after the loop gives 0−10 → 0, then +3). -/
+example : Block.sync_apply_pure 10 3 0 [1, 0] [true, false] [0, 5] = some [0, 15] := by decide
+
 /-- The proposer the context caches for the slot stays the specification's `get_beacon_proposer_index` while a block
 is processed: it depends only on slot, randao history, effective balances and current-epoch activity (`SameDuties`),
 none of which an operation changes. (The frame lemma for composing the operation theorems.) -/
